@@ -13,7 +13,7 @@ def run_shared(prop, invs, tier, seed, level_note, with_d=False):
     if with_d:
         # the swallowed-parse-error kind (known finding) is explored for C05 only
         scs_d, gen_d = pipe.generate(tier, "Pipeline_genD.cfg")
-        scs_d = [s for s in scs_d if any(r["fault"] in ("D", "H") for r in s["roots"])]
+        scs_d = [s for s in scs_d if any(r["fault"] in ("D", "H", "K") for r in s["roots"])]
         sel = sel + pipe.select(scs_d, tier, seed, n_quick=90)
     obs = pipe.run_scenarios(sel, trace=True)
     mismatched = 0
@@ -35,6 +35,10 @@ def run_shared(prop, invs, tier, seed, level_note, with_d=False):
             suite_cov = suite.check(v, prop, sd)
         if prop == "C06":
             suite_cov["cli_conflicts"] = check_conflicts(v, sd)
+            # roots that share a module and disagree about its formatting (CheckRelObs.tla)
+            from . import checkrel
+            (sd / "checkrel").mkdir()
+            suite_cov["shared_module_runs"] = checkrel.run(v, sd / "checkrel")
             # the command-line front end as a whole (Cli.tla): which flag combinations may write
             from . import cliuni
             (sd / "cli").mkdir()
